@@ -1,10 +1,10 @@
 #!/bin/bash
-# apply a seeded change to /repo, run the given checks, undo it.  usage: tools/seedrun.sh <seed-id> <check> [<check>...]
+# apply a seeded change to /repo, run the given checks (without touching evidence/), undo it.  usage: tools/seedrun.sh <seed-id> <check> [<check>...]
 ID=$1; shift
 cd /repo && git diff --quiet || { echo "repo dirty"; exit 9; }
 git -C /repo apply /verif/seeded/$ID/patch.diff || exit 9
 for c in "$@"; do
-  cd /verif && ./vcheck $c > /tmp/wt/seed_$ID.$c.out 2>&1; rc=$?
+  cd /verif && VERIF_NO_EVIDENCE=1 ./vcheck $c > /tmp/wt/seed_$ID.$c.out 2>&1; rc=$?
   echo "seed=$ID check=$c exit=$rc violations=$(grep -c '^VIOLATION' /tmp/wt/seed_$ID.$c.out) $(grep '^VIOLATION' /tmp/wt/seed_$ID.$c.out | head -1 | cut -c1-260)"
   tail -1 /tmp/wt/seed_$ID.$c.out | cut -c1-200 | grep -v "^C[0-9][0-9] tier" 
 done
